@@ -211,6 +211,23 @@ def recorded_top_tie(res, thr, simultaneous):
     return mx >= thr and sum(1 for v in sc.values() if v == mx) > 1
 
 
+def records_overfull(states, thr, m, simultaneous):
+    """Whole-ballot (random) transfer: the tallies depend on the sample, so the over-quota class of
+    finding F10a is read from the recorded rounds: some recorded state in which the candidates at or
+    above the threshold outnumber the seats still unfilled (or more than m are already elected)."""
+    if not simultaneous or not states or thr <= 0:
+        return False
+    n_el = 0
+    for stt in states:
+        n_el += sum(len(g) for g in stt["elected"])
+        if n_el > m:
+            return True
+        sc = [C.frac(v) for v in stt["scores"].values()]
+        if sum(1 for v in sc if v >= thr) > m - n_el:
+            return True
+    return False
+
+
 def alaska_stage_draws(case, res):
     """Does Alaska's STV stage make a random draw on this input?  The kept candidates are read
     from the recorded plurality round; the stage is then run by the harness under a few seeds."""
@@ -320,6 +337,17 @@ def check(case):
                 mdl = refstv.Model(red, order, cfg["m_2"], cfg.get("quota", "droop"))
                 if mdl.threshold == 0:
                     sub = "hare_threshold_zero"
+                elif cfg.get("transfer", "fractional") == "random":
+                    # the STV stage's own rounds are not in Alaska's records when its constructor
+                    # raises: run the stage on the reduced profile (a few sampling seeds) and read the
+                    # over-quota class from those records
+                    scfg = {"m": cfg["m_2"], "quota": cfg.get("quota", "droop"), "simultaneous": cfg.get("simultaneous", True),
+                            "tiebreak": tb or "random", "transfer": "random"}
+                    for sd in (case["rng"].get("seed", 0), 1, 2, 3):
+                        r2 = E.run("STV", C.mk_profile(red, order), scfg, {"seed": sd})
+                        if records_overfull(r2.states or [], mdl.threshold, cfg["m_2"], scfg["simultaneous"]):
+                            sub = "overfull_round"
+                            break
                 elif cfg.get("transfer", "fractional") == "fractional":
                     scfg = {"m": cfg["m_2"], "quota": cfg.get("quota", "droop"), "simultaneous": cfg.get("simultaneous", True),
                             "tiebreak": tb, "transfer": "fractional"}
@@ -335,6 +363,9 @@ def check(case):
             mdl = refstv.Model(ballots, cands, m, cfg.get("quota", "droop"), rule == "SequentialRCV")
             if mdl is not None and mdl.threshold == 0:
                 sub = "hare_threshold_zero"
+            elif mdl is not None and cfg.get("transfer", "fractional") == "random":
+                if records_overfull(res.states or [], mdl.threshold, m, stv_like["simultaneous"]):
+                    sub = "overfull_round"
             elif mdl is not None and cfg.get("transfer", "fractional") == "fractional":
                 tmp = Outcome()
                 status = c02.judge_run(tmp, stv_like, res, mdl)
